@@ -350,6 +350,18 @@ def gen_W(tier, seed, info):
                             for run in runs:
                                 stats["exhaustive"] += 1
                                 yield "W " + " ".join(efg_pre + keep + ["b%d.%s.0.0.%s" % (bound, kind, bb)] + run)
+    # the focus is somewhere already when the handler is bound: the window that loses it (or an ancestor that is told)
+    # closes / releases the window that is taking it
+    for pre in (["t2"], ["t3"], ["N0.1", "N1.1", "t2"], ["N0.1", "t3"]):
+        for bound in range(4):
+            for target in range(4):
+                for body in ("c%d,u%d", "u%d", "c%d"):
+                    if target == 0 and body == "c%d":
+                        continue
+                    b = body.replace("%d", str(target))
+                    for run in (["t1", "f0"], ["t0", "f0"], ["t3", "t2", "f0"]):
+                        stats["exhaustive"] += 1
+                        yield "W " + " ".join(efg_pre + pre + ["b%d.f.0.0.%s" % (bound, b)] + run)
     # two handlers of the same kind on one window, the first removes the window (or the second handler); nested
     # dispatch from a handler that has unbound itself: flush inside expose, take_focus inside focus, resize inside geomchange
     for kind, trig in (("e", ["x0", "f0"]), ("f", ["t1"]), ("g", ["y1"])):
